@@ -214,6 +214,8 @@ pub fn fmt_ns(ns: i64) -> String {
     )
 }
 
+pub static TRACE: AtomicU64 = AtomicU64::new(0);
+
 thread_local! {
     static CTX: Cell<*const RunCtx> = const { Cell::new(std::ptr::null()) };
 }
@@ -254,6 +256,14 @@ pub unsafe extern "C" fn getrandom(buf: *mut u8, len: usize, flags: u32) -> isiz
         return unsafe { syscall(SYS_GETRANDOM, buf, len, flags) } as isize;
     }
     let ctx = unsafe { &*p };
+    if TRACE.load(Relaxed) != 0 {
+        // debugging aid (MTSIM_TRACE_ENTROPY=1): who draws entropy, on which thread
+        CTX.with(|c| c.set(std::ptr::null()));
+        let bt = format!("{}", std::backtrace::Backtrace::force_capture());
+        let keep: Vec<&str> = bt.lines().filter(|l| l.contains("::") && !l.contains("backtrace")).take(12).collect();
+        eprintln!("ENTROPY len={len} call#{} thread={:?}\n{}\n", ctx.n_entropy_calls.load(Relaxed) + 1, std::thread::current().id(), keep.join("\n"));
+        CTX.with(|c| c.set(p));
+    }
     ctx.n_entropy_calls.fetch_add(1, Relaxed);
     ctx.n_entropy_bytes.fetch_add(len as u64, Relaxed);
     let mut i = 0;
